@@ -243,3 +243,47 @@ def wellTypedGB (P : Program) : Bool :=
   P.top.binds.all fun b => !b.split
 
 end Martian.ResolverStatic
+
+namespace Martian.ResolverStatic
+open Martian.Dataflow
+
+/-! ## programs with array-mode map calls of stages AND pipelines, nested (sizes: `treeOkList`) -/
+
+def mappedOkTB (st : StructTable) (n : Nat) (P : Program) (sT cT : String → Ty) (c : Call) : Bool :=
+  c.mapped && c.disabled.isNone &&
+  (c.binds.any fun b => b.split) &&
+  decide ((c.binds.map (·.param)).Nodup) &&
+  (c.binds.all fun b => !b.split || (P.insOf c.callee).any fun p => p.name == b.param) &&
+  (P.insOf c.callee).all fun p =>
+    match c.binds.find? (fun b => b.param == p.name) with
+    | some b => hasTyB st n sT cT (if b.split then liftSplitTy false p.ty else p.ty) b.exp
+    | none => true
+
+def callOkTB (st : StructTable) (n : Nat) (P : Program) (sT cT : String → Ty) (c : Call) : Bool :=
+  (callOkB st n P.insOf sT cT c && c.binds.all fun b => !b.split) || mappedOkTB st n P sT cT c
+
+def callsOkTB (st : StructTable) (n : Nat) (P : Program) (sT : String → Ty) :
+    List (String × Ty) → List Call → Bool
+  | _, [] => true
+  | L, c :: cs => callOkTB st n P sT (callTyOfB L) c && callsOkTB st n P sT (L ++ [(c.id, callTyMB c)]) cs
+
+def pipelineOkTB (st : StructTable) (n : Nat) (P : Program) (pins outs : List Param)
+    (calls : List Call) (ret : List (String × Exp)) : Bool :=
+  callsOkTB st n P (selfTyOfB pins) [] calls &&
+  outs.all fun p =>
+    match ret.lookup p.name with
+    | some e => hasTyB st n (selfTyOfB pins) (callTyOfB (calls.map fun c => (c.id, callTyMB c))) p.ty e
+    | none => true
+
+/-- decidable typing hypothesis of `resolver_refines_den_mappedpipes_checked` -/
+def wellTypedTB (P : Program) : Bool :=
+  structsOkB P.table &&
+  (P.callables.all fun e => P.table.lookup e.1 == some e.2.outs) &&
+  (P.callables.all fun e =>
+    match e.2 with
+    | .stage _ _ => true
+    | .pipeline pins outs calls ret => pipelineOkTB P.table P.table.length P pins outs calls ret) &&
+  callOkB P.table P.table.length P.insOf (selfTyOfB []) (callTyOfB []) P.top &&
+  P.top.binds.all fun b => !b.split
+
+end Martian.ResolverStatic
